@@ -177,11 +177,13 @@ func (store *Store) LockLedger(ctx context.Context) (*Store, bun.IDB, func() err
 		storeCp.db = conn
 
 		return &storeCp, storeCp.db, func() error {
-			_, err := conn.ExecContext(ctx, `SELECT pg_advisory_unlock(hashtext(?))`, fmt.Sprintf("ledger:%d", store.ledger.ID))
-			if err != nil {
-				return err
+			// The lock is bound to the session: it must be given back even when the caller's context is
+			// already cancelled (client gone), otherwise the pooled connection keeps it forever.
+			_, err := conn.ExecContext(context.WithoutCancel(ctx), `SELECT pg_advisory_unlock(hashtext(?))`, fmt.Sprintf("ledger:%d", store.ledger.ID))
+			if closeErr := conn.Close(); err == nil {
+				err = closeErr
 			}
-			return conn.Close()
+			return err
 		}, nil
 	case bun.Tx:
 		_, err := db.ExecContext(ctx, `SELECT pg_advisory_xact_lock(hashtext(?))`, fmt.Sprintf("ledger:%d", store.ledger.ID))
